@@ -4,7 +4,7 @@ from .. import core, gen, designs
 from . import vcdfam
 
 PID = "C11"
-LEVEL = "translation_validation"
+LEVEL = "proof"
 RULE = ("abstract GHW value histories (std_ulogic and bit scalars and vectors of any width, u8 enums, 32-bit integers incl. "
         "negative, reals; one snapshot and any number of cycle sections with positive, zero (delta cycle) and backwards time "
         "deltas, directory and tailer sections, little and big endian headers) are serialised as GHW signal sections and read by "
@@ -247,7 +247,16 @@ def run(res, rng, tier, model_ok, replay=None):
     if not replay:
         # complete generated GHW files (string table with shared prefixes, type table, hierarchy, snapshot, cycles with
         # delta rounds), full listing vs design
-        designs.run_file_cases(res, designs.ghw_cases(rng, tier), "c11f")
+        import glob, os
+
+        def tie(paths):
+            # the model of the whole GHW loader on the same files, and on corrupted headers of some of them
+            designs.ghw_model_tie(res, paths, "c11m", model_ok)
+            bad = designs.ghw_corrupt_headers(rng, paths[:(12 if tier == "quick" else 150)], os.path.dirname(paths[0]), 12)
+            designs.ghw_model_tie(res, bad, "c11b", model_ok, what="corrupted-header", whole=False)
+        designs.run_file_cases(res, designs.ghw_cases(rng, tier), "c11f", with_files=tie)
+        corpus = sorted(f for f in glob.glob("/repo/wellen/inputs/**/*.ghw", recursive=True))
+        designs.ghw_model_tie(res, corpus, "c11c", model_ok, what="corpus")
 
 
 def check_known(entry):
